@@ -121,15 +121,54 @@ def flat_index(nind, cols, ntri):
     return out
 
 
-def rand_matrix(rng):
+SCALE_EXPS = [0, 0, 0, 0, -20, -16, -13, -12, -10, -7, -4, -1, 2, 5, 9, 12, 16, 20]
+
+
+def rand_matrix(rng, tstep=1, tden=1):
+    """signed permutation with an independent integer scale per axis (non-uniform, mirrors included:
+    axis-parallel planes stay axis-parallel) and a translation of a few lattice steps.
+    -> (12 row-major entries, translation numerators over tden)"""
     perm = [0, 1, 2]
     rng.shuffle(perm)
-    s = rng.choice([1, 1, 2])
-    m = []
+    uniform = rng.random() < 0.4
+    s0 = rng.choice([1, 1, 2])
+    m, tnum = [], []
     for r in range(3):
-        row = [0, 0, 0, rng.randint(-3, 3)]
-        row[perm[r]] = s * rng.choice([1, -1])
+        t = rng.randint(-3, 3) * tstep
+        row = [0, 0, 0, t / tden]
+        row[perm[r]] = (s0 if uniform else rng.choice([1, 2, 3])) * rng.choice([1, -1])
         m.extend(row)
+        tnum.append(t)
+    return m, tnum
+
+
+def mat3_mul(a, b):
+    return [[sum(a[i][k] * b[k][j] for k in range(3)) for j in range(3)] for i in range(3)]
+
+
+def rand_nonrigid3(rng):
+    """integer 3x3: non-uniform scales, shears, mirrors and products of two of them"""
+    def one():
+        k = rng.choice(['diag', 'shear', 'mirror', 'perm'])
+        m = [[1 if i == j else 0 for j in range(3)] for i in range(3)]
+        if k == 'diag':
+            for i in range(3):
+                m[i][i] = rng.choice([1, 2, 3, -1, -2])
+        elif k == 'shear':
+            i, j = rng.sample(range(3), 2)
+            m[i][j] = rng.choice([1, 2, -1])
+        elif k == 'mirror':
+            i = rng.randrange(3)
+            m = [[1 if a == b else 0 for b in range(3)] for a in range(3)]
+            m[i][i] = -1
+        else:
+            p = [0, 1, 2]
+            rng.shuffle(p)
+            m = [[1 if p[a] == b else 0 for b in range(3)] for a in range(3)]
+        return m
+    m = one()
+    if rng.random() < 0.5:
+        m = mat3_mul(m, one())
     return m
 
 
@@ -193,24 +232,36 @@ def finish_case(rng, case):
     return case
 
 
+def scale_lattice(rng, verts, vden0):
+    """scale the lattice by a power of two: -> (integer rows, denominator, lattice step numerator)"""
+    e = rng.choice(SCALE_EXPS)
+    if e >= 0:
+        return [[x * 2 ** e for x in p] for p in verts], vden0, 2 ** e, e
+    return verts, vden0 * 2 ** (-e), 1, e
+
+
 def gen_lattice_normals(rng):
     while True:
         tp, G = gen_lattice_tris(rng)
         if tp:
             break
     verts, tris = index_mesh(rng, tp, G)
-    vden = rng.choice([1, 1, 2, 4])
-    shift = [rng.randint(-3, 3) * vden for _ in range(3)]
+    vden0 = rng.choice([1, 1, 2, 4])
+    shift = [rng.randint(-3, 3) * vden0 for _ in range(3)]
     verts = [[p[i] + shift[i] for i in range(3)] for p in verts]
+    verts, vden, step, e = scale_lattice(rng, verts, vden0)
     inputs, nind = layout(rng, False, rng.random() < 0.2)
     mode = rng.choice(['api', 'xml', 'bound-api', 'bound-xml'])
-    case = {'kind': 'normals', 'lattice': True, 'mode': mode, 'vden': vden, 'verts': verts,
+    case = {'kind': 'normals', 'lattice': True, 'mode': mode, 'vden': vden, 'verts': verts, 'scale_exp': e,
             'fverts': [[x / vden for x in p] for p in verts], 'tris': tris, 'inputs': inputs, 'nind': nind}
     if 'TEXCOORD' in inputs:
         case['fuvs'] = [[0.0, 0.0], [1.0, 0.0], [0.0, 1.0]]
         case['uvtris'] = [[0, 1, 2] for _ in tris]
     if mode.startswith('bound'):
-        case['mat'] = rand_matrix(rng)
+        case['mat'], case['mat_tnum'] = rand_matrix(rng, step * vden0, vden)
+        case['seq'] = rng.choice(['bound-gen', 'unbound-first', 'unbound-first', 'bound-gen-twice'])
+    else:
+        case['seq'] = rng.choice(['gen', 'gen', 'gen-twice'])
     return finish_case(rng, case)
 
 
@@ -225,8 +276,7 @@ def gen_lattice_tangents(rng):
         if tp:
             break
     verts, tris = index_mesh(rng, tp, G)
-    vden = rng.choice([1, 1, 2])
-    verts = [list(p) for p in verts]
+    verts, vden, _step, e = scale_lattice(rng, [list(p) for p in verts], rng.choice([1, 1, 2]))
     H = rng.choice([2, 3, 4])
     uvs = [[s, t] for s in range(H + 1) for t in range(H + 1)]
     uvden = rng.choice([1, 2, 4])
@@ -248,7 +298,7 @@ def gen_lattice_tangents(rng):
         true_axis = AXIS_UNITS.index(sg)
         ntris.append([true_axis if rng.random() < 0.6 else rng.randrange(6) for _ in range(3)])
     inputs, nind = layout(rng, True, True)
-    case = {'kind': 'tangents', 'lattice': True, 'mode': rng.choice(['api', 'xml']), 'vden': vden, 'verts': verts,
+    case = {'kind': 'tangents', 'lattice': True, 'mode': rng.choice(['api', 'xml']), 'vden': vden, 'verts': verts, 'scale_exp': e,
             'fverts': [[x / vden for x in p] for p in verts], 'tris': tris, 'inputs': inputs, 'nind': nind,
             'uvden': uvden, 'uvs': uvs, 'fuvs': [[x / uvden for x in p] for p in uvs], 'uvtris': uvtris,
             'normals': [list(a) for a in AXIS_UNITS], 'fnormals': [[float(x) for x in a] for a in AXIS_UNITS],
@@ -283,12 +333,37 @@ def gen_float_case(rng, kind):
         tris.append(t)
     if not tris:
         return gen_float_case(rng, kind)
-    case = {'kind': kind, 'lattice': False, 'fverts': verts, 'tris': tris}
+    e = rng.choice(SCALE_EXPS)
+    sc = 2.0 ** e
+    unscaled = verts
+    verts = [[x * sc for x in p] for p in verts]          # exact: a power of two
+    case = {'kind': kind, 'lattice': False, 'fverts': verts, 'tris': tris, 'scale_exp': e}
     if kind == 'normals':
         case['mode'] = rng.choice(['api', 'xml', 'bound-api', 'bound-xml'])
         case['inputs'], case['nind'] = layout(rng, False, False)
         if case['mode'].startswith('bound'):
-            case['mat'] = rand_matrix(rng)
+            lin = None
+            if rng.random() < 0.6:
+                lin = rand_nonrigid3(rng)
+                # keep the transformed triangles well shaped (the oracle is a float comparison)
+                for t in tris:
+                    a, b, c = ([sum(lin[r][k] * unscaled[i][k] for k in range(3)) for r in range(3)] for i in t)
+                    u = [b[i] - a[i] for i in range(3)]
+                    w = [c[i] - a[i] for i in range(3)]
+                    cr = (u[1] * w[2] - u[2] * w[1], u[2] * w[0] - u[0] * w[2], u[0] * w[1] - u[1] * w[0])
+                    lu, lw, lc = (math.sqrt(sum(x * x for x in v)) for v in (u, w, cr))
+                    if lu < 0.3 or lw < 0.3 or lc < 0.15 * lu * lw:
+                        lin = None
+                        break
+            if lin is None:
+                case['mat'], _ = rand_matrix(rng)
+            else:
+                case['mat'] = [x for r in range(3) for x in (lin[r] + [rng.randint(-3, 3)])]
+            for r in range(3):
+                case['mat'][4 * r + 3] = case['mat'][4 * r + 3] * sc
+            case['seq'] = rng.choice(['bound-gen', 'unbound-first', 'unbound-first', 'bound-gen-twice'])
+        else:
+            case['seq'] = rng.choice(['gen', 'gen', 'gen-twice'])
     else:
         case['mode'] = rng.choice(['api', 'xml'])
         own = rng.random() < 0.5
@@ -338,8 +413,9 @@ def expected_verts(case):
     """integer vertex rows (denominator vden) the primitive must hold; bound = matrix applied"""
     if not case['mode'].startswith('bound'):
         return case['verts']
-    m, d = case['mat'], case['vden']
-    return [[m[4 * r] * p[0] + m[4 * r + 1] * p[1] + m[4 * r + 2] * p[2] + m[4 * r + 3] * d for r in range(3)]
+    m = case['mat']
+    t = case.get('mat_tnum') or [int(m[4 * r + 3]) * case['vden'] for r in range(3)]
+    return [[int(m[4 * r]) * p[0] + int(m[4 * r + 1]) * p[1] + int(m[4 * r + 2]) * p[2] + t[r] for r in range(3)]
             for p in case['verts']]
 
 
@@ -361,7 +437,7 @@ def encode(case, obs):
         (frows, fden), (nrows, nden) = obs['face'], obs['normal']
         common = max(fden, nden)
         frows, nrows = rescale(frows, fden, common), rescale(nrows, nden, common)
-        face = [frows[3 * i:3 * i + 3] for i in range(len(case['tris']))]
+        face = [frows[3 * i:3 * i + 3] for i in range(len(case['tris']))] if frows else []
         return ('(NormCase %d%%positive %s %s %d%%positive %s %s %s)' % (
             case['vden'], clist([cz3(p) for p in ev]), clist([ctri(t) for t in case['tris']]), common,
             clist([clist([cz3(r) for r in tri]) for tri in face]), clist([cz3(r) for r in nrows]),
@@ -467,15 +543,17 @@ def run(ctx):
         mismatches.append({'case_index': i, 'input': cases[i], 'implementation_observed': results[i].get('obs'),
                            'explained_by_known': False})
     seen = set()
-    mult, modes, kinds = {}, {}, {}
+    mult, modes, kinds, seqs, scales = {}, {}, {}, {}, {}
     for c in cases:
         m = same_corner_multiplicity(c)
         mult[min(m, 8)] = mult.get(min(m, 8), 0) + 1
         modes[c['mode']] = modes.get(c['mode'], 0) + 1
         k = ('lattice-' if c.get('lattice') else 'float-') + c['kind']
         kinds[k] = kinds.get(k, 0) + 1
+        seqs[c.get('seq')] = seqs.get(c.get('seq'), 0) + 1
+        scales[str(c.get('scale_exp', 0))] = scales.get(str(c.get('scale_exp', 0)), 0) + 1
         if m >= 2:
-            seen.add(core.canon_hash([c['fverts'], c['tris'], c['mode'], c.get('uvtris')]))
+            seen.add(core.canon_hash([c['fverts'], c['tris'], c['mode'], c.get('uvtris'), c.get('seq'), c.get('mat')]))
     sample = [{'mode': c['mode'], 'kind': c['kind'], 'verts': c.get('verts'), 'vden': c.get('vden'), 'tris': c['tris']}
               for c in cases[ncorpus:ncorpus + 3]]
     corr = {
@@ -483,11 +561,12 @@ def run(ctx):
         'distinct_nontrivial': len(seen),
         'rule': 'lattice meshes (faces in axis-parallel planes, dyadic coordinates; model run in Coq over Qc, results '
                 'compared as exact rationals up to 2^-16) and random well-shaped float32 meshes (float64 oracle only), '
-                'built through the API or loaded from generated XML, unbound or bound through a scene with an integer '
-                'matrix; non-trivial = some vertex occupies the same corner position in at least two triangles; '
+                'scaled by 2^e, e in -20..20, built through the API or loaded from generated XML, unbound or bound '
+                '(scene node or Geometry.bind; signed permutations with non-uniform scales, and for the float meshes shears / '
+                'mirrors / products), sequences gen | gen twice | bind then gen | gen, bind, gen | bind, gen twice; non-trivial = some vertex occupies the same corner position in at least two triangles; '
                 'distinct = different (vertices, index triples, mode, uv triples)',
         'samples': sample,
-        'distribution': {'kinds': kinds, 'modes': modes, 'max_same_corner_multiplicity_histogram': mult,
+        'distribution': {'kinds': kinds, 'modes': modes, 'sequences': seqs, 'scale_exponents': scales, 'max_same_corner_multiplicity_histogram': mult,
                          'coq_cases': len(terms), 'lattice_cases_not_sent_to_coq': skipped, 'corpus_cases': ncorpus},
         'mismatches': mismatches,
         'errors': errors,
